@@ -58,8 +58,9 @@ func runIsolated(prop string, cases []caseT, perCase time.Duration, workdir stri
 		n := len(cases) - start
 		ctx, cancel := context.WithTimeout(context.Background(), perCase*time.Duration(n)+10*time.Second)
 		cmd := exec.CommandContext(ctx, os.Args[0], "-prop", prop, "-replay", in, "-out", outDir)
-		cmd.Env = append(os.Environ(), "VERIF_CHILD=1", "GOTRACEBACK=none")
-		cmd.Stderr = nil
+		cmd.Env = append(os.Environ(), "VERIF_CHILD=1", "GOTRACEBACK=none", "GORACE=halt_on_error=1 exitcode=66")
+		var stderr tailBuffer
+		cmd.Stderr = &stderr
 		cmd.Stdout = nil
 		runErr := cmd.Run()
 		timedOut := ctx.Err() == context.DeadlineExceeded
@@ -97,9 +98,13 @@ func runIsolated(prop string, cases []caseT, perCase time.Duration, workdir stri
 		}
 		if done < n {
 			// the child died (or timed out) on case start+done
-			if timedOut {
+			switch {
+			case timedOut:
 				res[start+done].obs = "timeout"
-			} else {
+			case strings.Contains(stderr.String(), "DATA RACE"):
+				res[start+done].obs = "race"
+				res[start+done].reject = firstRaceLines(stderr.String())
+			default:
 				res[start+done].obs = "crash"
 			}
 			start = start + done + 1
@@ -108,4 +113,34 @@ func runIsolated(prop string, cases []caseT, perCase time.Duration, workdir stri
 		}
 	}
 	return res
+}
+
+// tailBuffer keeps the first 64 KiB of what is written to it
+type tailBuffer struct{ b []byte }
+
+func (t *tailBuffer) Write(p []byte) (int, error) {
+	if len(t.b) < 1<<16 {
+		t.b = append(t.b, p...)
+	}
+	return len(p), nil
+}
+func (t *tailBuffer) String() string { return string(t.b) }
+
+func firstRaceLines(s string) string {
+	i := strings.Index(s, "DATA RACE")
+	if i < 0 {
+		return ""
+	}
+	lines := strings.Split(s[i:], "\n")
+	var keep []string
+	for _, l := range lines {
+		l = strings.TrimSpace(l)
+		if strings.Contains(l, ".go:") || strings.HasPrefix(l, "Write at") || strings.HasPrefix(l, "Read at") || strings.HasPrefix(l, "Previous") {
+			keep = append(keep, l)
+		}
+		if len(keep) >= 8 {
+			break
+		}
+	}
+	return "data race: " + strings.Join(keep, " | ")
 }
